@@ -12,7 +12,7 @@ _lib = {}
 def plan(tier, seed):
     alt = spaces.label_choices(seed, 1)[0]
     if tier == 'quick':
-        blocks = [dict(n=3, m=2, labels='ints'), dict(n=4, m=1, labels='ints'), dict(n=3, m=3, labels='ints', schemes='core2'),
+        blocks = [dict(n=3, m=2, labels='ints', histories=True), dict(n=4, m=1, labels='ints'), dict(n=3, m=3, labels='ints', schemes='core2'),
                   dict(n=3, m=2, labels=alt), dict(n=4, m=2, labels='ints', schemes='core2'), dict(n=2, m=3, labels='ints')]
     else:
         blocks = [dict(n=4, m=2, labels='ints'), dict(n=5, m=1, labels='ints'), dict(n=3, m=3, labels='ints'),
@@ -54,11 +54,11 @@ def coherent_order(universe, table):
     return None
 
 
-def check_case(ctx, ds, lname, n, schemes):
+def check_case(ctx, ds, lname, n, schemes, dataset_obj=None, origin=None):
     from ..lib import mk_dataset, mk_scheme, labels_for, Back, wellformed
     labels = labels_for(lname, n)
     universe = spaces.universe_of(ds)
-    dataset = mk_dataset(ds, labels)
+    dataset = dataset_obj if dataset_obj is not None else mk_dataset(ds, labels)
     back = Back(labels, universe)
     identical_complete = spaces.is_complete(ds) and len(set(ds)) == 1
     for s in schemes:
@@ -84,7 +84,8 @@ def check_case(ctx, ds, lname, n, schemes):
         for cs, trace, (status, c, picked) in chooser.explore(run, max_runs=5000):
             nsched += 1
             ctx.evals += 1
-            case = {'cfg': {}, 'dataset': ds, 'labels': lname, 'n': n, 'scheme': s, 'schedule': cs}
+            case = {'cfg': {}, 'dataset': ds, 'labels': lname, 'n': n, 'scheme': s, 'schedule': cs,
+                    'mutated_in_place_from': origin}
             if status == 'exc':
                 ctx.violation('kwiksort-raises', case, None, None, exc=c)
                 continue
@@ -131,19 +132,38 @@ def check_case(ctx, ds, lname, n, schemes):
     ctx.sample({'dataset': ds, 'labels': lname, 'last_scheme_schedules': nsched, 'coherent_order': W})
 
 
+def histories(ctx, ds0, lname, n, schemes):
+    """run -> mutate in place -> run again on the SAME dataset object (all pivot schedules after the mutation)."""
+    from ..lib import labels_for, mutation_histories, prepare_mutated, mk_scheme
+    labels = labels_for(lname, n)
+    for what, after in mutation_histories(ds0):
+        for s in schemes:
+            def warm(dd):
+                with chooser.Chooser([]):
+                    _lib['A']().compute_consensus_rankings(dd, mk_scheme(s), True)
+            d = prepare_mutated(ds0, labels, what, warm=warm)
+            check_case(ctx, after, lname, n, [s], dataset_obj=d, origin=[ds0, what])
+            ctx.count('cases_after_run_mutate_on_the_same_dataset_object')
+
+
 def run_shard(sh):
     ctx = Ctx(ID)
     schemes = scheme_list(sh.get('schemes'))
     for index, ds in spaces.ds_iter_strided(sh['n'], sh['m'], sh['shard'], sh['nshards']):
         before = ctx.cases
         check_case(ctx, ds, sh['labels'], sh['n'], schemes)
+        if sh.get('histories'):
+            histories(ctx, ds, sh['labels'], sh['n'], [spaces.UNIFYING, spaces.B3LTB4])
         ctx.count('dataset_scheme_cases', ctx.cases - before)
         ctx.cases = before + 1
     return ctx.result()
 
 
 def replay(ctx, c):
-    check_case(ctx, tt(c['dataset']), c['labels'], c['n'], [scheme_of(c['scheme'])])
+    if c.get('mutated_in_place_from'):
+        histories(ctx, tt(c['mutated_in_place_from'][0]), c['labels'], c['n'], [scheme_of(c['scheme'])])
+    else:
+        check_case(ctx, tt(c['dataset']), c['labels'], c['n'], [scheme_of(c['scheme'])])
 
 
 def summarize(tier, seed, merged, phases):
